@@ -1318,7 +1318,7 @@ func (fc *fnCtx) execSimple(st *State, fr *frame, ins ssa.Instruction, k func(*S
 			fc.trackSliceBox(st, b.T, x)
 		}
 		if x.S != SU || isConcrete(ins.X.Type()) {
-			st.pc = append(st.pc, eq(app("dyntype", b.T), fmt.Sprint(fc.e.typeID(typeKey(ins.X.Type())))))
+			st.pc = append(st.pc, eq(app("dyntype", b.T), fc.typeTerm(st, ins.X.Type())))
 			if x.S != SU {
 				st.pc = append(st.pc, not(eq(b.T, "nil")))
 			}
@@ -1865,7 +1865,7 @@ func (fc *fnCtx) typeAssert(st *State, fr *frame, ins *ssa.TypeAssert) {
 			okT = and(not(eq(x.T, "nil")), app("implements", app("dyntype", x.T), fmt.Sprint(fc.e.typeID("iface:"+typeKey(target)))))
 		}
 	} else {
-		okT = and(not(eq(x.T, "nil")), eq(app("dyntype", x.T), fmt.Sprint(fc.e.typeID(typeKey(target)))))
+		okT = and(not(eq(x.T, "nil")), eq(app("dyntype", x.T), fc.typeTerm(st, target)))
 	}
 	okN := fc.declare(st, "ok", "Bool")
 	st.pc = append(st.pc, eq(okN, okT))
@@ -1889,4 +1889,46 @@ func isTypeParam(t types.Type) bool {
 func emptyIface(t types.Type) bool {
 	i, ok := t.Underlying().(*types.Interface)
 	return ok && i.NumMethods() == 0
+}
+
+// typeTerm is the dynamic-type tag of a static type. Type parameters are symbolic integers
+// (two type parameters may denote the same type), composite types are built from their parts.
+func (fc *fnCtx) typeTerm(st *State, t types.Type) string {
+	switch x := t.(type) {
+	case *types.TypeParam:
+		n := "tid." + sanitize(x.Obj().Name())
+		d := fmt.Sprintf("(declare-const %s Int)", n)
+		found := false
+		for _, y := range st.decls {
+			if y == d {
+				found = true
+				break
+			}
+		}
+		if !found {
+			st.decls = append(st.decls, d)
+			st.pc = append(st.pc, fmt.Sprintf("(>= %s 1)", n))
+		}
+		return n
+	case *types.Slice:
+		// composite tags are injective in their parts and disjoint from the tags of basic and named types
+		return fmt.Sprintf("(+ 1000001 (* 4 %s))", fc.typeTerm(st, x.Elem()))
+	case *types.Pointer:
+		return fmt.Sprintf("(+ 1000002 (* 4 %s))", fc.typeTerm(st, x.Elem()))
+	case *types.Map:
+		fc.declareFun(st, "tid_map", "(Int Int) Int")
+		return app("tid_map", fc.typeTerm(st, x.Key()), fc.typeTerm(st, x.Elem()))
+	case *types.Named:
+		if x.TypeArgs() != nil && x.TypeArgs().Len() > 0 {
+			fn := "tid_gen." + sanitize(x.Obj().Name())
+			var as, sig []string
+			for i := 0; i < x.TypeArgs().Len(); i++ {
+				as = append(as, fc.typeTerm(st, x.TypeArgs().At(i)))
+				sig = append(sig, "Int")
+			}
+			fc.declareFun(st, fn, "("+strings.Join(sig, " ")+") Int")
+			return app(fn, as...)
+		}
+	}
+	return fmt.Sprint(fc.e.typeID(typeKey(t)))
 }
